@@ -719,7 +719,7 @@ def run(ctx):
                        "(validated by the differential `pure` stream, not verified)")
     if not prepare(ctx):
         return
-    ok = C.lean_prove(ctx, "TinyVerif.Props.C03", drivers=["drv_c03"], more_props=["TinyVerif.Props.C03Ind"])
+    ok = C.lean_prove(ctx, "TinyVerif.Props.C03", drivers=["drv_c03"], more_props=["TinyVerif.Props.C03Ind", "TinyVerif.Props.C03Prog"])
     quick = ctx.tier == "quick"
     drv = C.driver_path("drv_c03")
     exe, err = build(ctx, "optda")
